@@ -195,6 +195,13 @@ func (x *c04run[K]) checkAll(focus K) {
 				return
 			}
 		}
+		// the caller owns what Keys returned: scribbling over it must not reach the map
+		if len(keys) > 1 {
+			keys[0], keys[len(keys)-1] = keys[len(keys)-1], keys[0]
+			var zero K
+			keys = append(keys[:1], zero)
+			_ = keys
+		}
 		if x.exact {
 			var sb strings.Builder
 			sb.WriteString("omap[")
